@@ -6,8 +6,9 @@
    get_sessions returns the trace (URLs requested, documents yielded, how the generator ended);
    `converted tz d` is the document after parse_dates; instants are seconds (Base/Calendar.v); an aware
    datetime is (local seconds, utc offset, zone) with instant = local - offset; a zone is an oracle
-   z : UTC instant -> offset; rfc1123 pad t is strftime's text for instant t, where pad says whether
-   the C library zero-pads "%Y" (RFC 1123 needs it; glibc does not — see Props/C20_findings.v).
+   z : UTC instant -> offset; rfc1123 t is the text http_date builds for the UTC instant t, obtained by
+   interpreting the format strings regenerated from utils.py on every run (Gen/ClientShape.v):
+   utc.strftime(K_strftime_prefix) + K_year_format % utc.year + utc.strftime(K_strftime_suffix).
    Only statements here; proofs in Proofs/Client.v. *)
 From Coq Require Import ZArith List Bool String.
 From ACN Require Import Base.Num Base.Calendar Gen.ClientShape Model.Client Proofs.Client.
@@ -72,7 +73,8 @@ Print Assumptions C20_query.
 (* the string literals the model is built from are re-read from data_client.py / utils.py on every run
    (Gen/ClientShape.v); this fails to compile as soon as one of them changes *)
 Theorem C20_literals :
-  K_strftime_format = rfc1123_format /\ K_strptime_format = rfc1123_format /\
+  (K_strftime_prefix ++ "%Y" ++ K_strftime_suffix = rfc1123_format /\ K_year_format = "%04d") /\
+  K_strptime_format = rfc1123_format /\
   K_valid_sites = ["caltech"; "jpl"; "office001"] /\ K_site_error = "ValueError" /\
   K_endpoint = "sessions/" /\ K_ts_suffix = "/ts/" /\ K_limit = "100" /\ K_limit_ts = "1" /\
   K_arg_cond = "where=" /\ K_arg_project = "project=" /\ K_arg_sort = "sort=" /\
@@ -95,47 +97,45 @@ Qed.
 Print Assumptions C20_query_text.
 
 (* get_sessions_by_time: the where clause carries the RFC-1123 text of both bounds *)
-Theorem C20_time_window : forall pad start stop,
-  year_ok pad (instant start) -> year_ok pad (instant stop) ->
-  time_cond pad (Some start) (Some stop) None =
-  Ok ("connectionTime >= """ ++ rfc1123 pad (instant start) ++ """ and connectionTime <= """
-      ++ rfc1123 pad (instant stop) ++ """").
+Theorem C20_time_window : forall start stop,
+  in_range (instant start) = true -> in_range (instant stop) = true ->
+  time_cond (Some start) (Some stop) None =
+  Ok ("connectionTime >= """ ++ rfc1123 (instant start) ++ """ and connectionTime <= """
+      ++ rfc1123 (instant stop) ++ """").
 Proof. exact by_time_cond. Qed.
 Print Assumptions C20_time_window.
 
-(* Round trip.  year_ok pad t :=  if pad then 0001-01-01 00:00:00 <= t <= 9999-12-31 23:59:59
-                                  else         1000-01-01 00:00:00 <= t <= 9999-12-31 23:59:59.
-   Full statement (every instant of years 1..9999) for an RFC-correct, zero-padding strftime: *)
-Theorem C20_roundtrip_if_year_padded : forall t, (min_t <= t <= max_t)%Z -> parse_rfc1123 (rfc1123 true t) = Some t.
-Proof. exact (parse_rfc1123_rfc1123 true). Qed.
-Print Assumptions C20_roundtrip_if_year_padded.
-
-(* FULL STATEMENT for the implementation as it is (pad = false):
-     forall t, (min_t <= t <= max_t)%Z -> parse_rfc1123 (rfc1123 false t) = Some t
-   is FALSE (C20_roundtrip_refuted in Props/C20_findings.v: year 999); proved for years 1000..9999: *)
-Theorem C20_roundtrip_partial : forall pad t, year_ok pad t -> parse_rfc1123 (rfc1123 pad t) = Some t.
-Proof. exact parse_rfc1123_rfc1123. Qed.
-Print Assumptions C20_roundtrip_partial.
-
-(* on aware datetimes: http_date then parse_http_date lands on the same instant in the target zone, and is
-   the identity when parsed back into the datetime's own zone *)
-Theorem C20_roundtrip_aware_partial : forall pad zn z a, year_ok pad (instant a) ->
-  res_bind (http_date pad a) (parse_http_date zn z) = astimezone zn z (instant a) /\
-  (a_off a = z (instant a) -> in_range (a_local a) = true ->
-   res_bind (http_date pad a) (parse_http_date (a_zone a) z) = Ok a).
+(* Round trip, every instant at second resolution in years 1..9999 (min_t = 0001-01-01 00:00:00,
+   max_t = 9999-12-31 23:59:59, in_range t <-> min_t <= t <= max_t), for the text the regenerated format strings
+   produce: parsing it back gives the instant; on aware datetimes http_date followed by parse_http_date is the
+   conversion of the same instant into the target zone, and the identity when the target zone is the datetime's
+   own; outside years 1..9999 (in UTC) http_date raises OverflowError. *)
+Theorem C20_roundtrip :
+  (forall t, (min_t <= t <= max_t)%Z -> parse_rfc1123 (rfc1123 t) = Some t) /\
+  (forall zn z a, in_range (instant a) = true ->
+     res_bind (http_date a) (parse_http_date zn z) = astimezone zn z (instant a)) /\
+  (forall z a, in_range (instant a) = true -> a_off a = z (instant a) -> in_range (a_local a) = true ->
+     res_bind (http_date a) (parse_http_date (a_zone a) z) = Ok a) /\
+  (forall a, in_range (instant a) = false -> http_date a = Err "OverflowError").
 Proof.
-  exact (fun pad zn z a H => conj (roundtrip_aware pad zn z a H) (roundtrip_identity pad z a H)).
+  exact (conj parse_rfc1123_rfc1123 (conj roundtrip_aware (conj roundtrip_identity http_date_overflow))).
 Qed.
-Print Assumptions C20_roundtrip_aware_partial.
+Print Assumptions C20_roundtrip.
+
+(* the witness of the defect fixed in /repo 87c5f78 (three-digit year): 0999-06-15 12:30:45 UTC *)
+Example C20_year_999_example :
+  http_date a999 = Ok "Sat, 15 Jun 0999 12:30:45 GMT" /\
+  res_bind (http_date a999) (parse_http_date "UTC" (fun _ => 0%Z)) = Ok a999.
+Proof. exact year_999_roundtrips. Qed.
 
 (* Conversion keeps the instant: a served RFC-1123 timestamp of instant u becomes, in zone (zn, z), an aware
    datetime a with instant a = u, offset z u, zone zn (or OverflowError when u + z u leaves years 1..9999);
    and whatever string parse_http_date accepts, the result denotes the instant the text denotes. *)
 Theorem C20_same_instant : forall zn z,
   (forall u, (min_t <= u <= max_t)%Z ->
-     parse_http_date zn z (rfc1123 true u) = astimezone zn z u /\
+     parse_http_date zn z (rfc1123 u) = astimezone zn z u /\
      (in_range (u + z u) = true ->
-      parse_http_date zn z (rfc1123 true u) = Ok {| a_local := u + z u; a_off := z u; a_zone := zn |})) /\
+      parse_http_date zn z (rfc1123 u) = Ok {| a_local := u + z u; a_off := z u; a_zone := zn |})) /\
   (forall s a, parse_http_date zn z s = Ok a ->
      exists u, parse_rfc1123 s = Some u /\ instant a = u /\ a_off a = z u /\ a_zone a = zn).
 Proof.
@@ -169,7 +169,7 @@ Print Assumptions C20_timeseries_elementwise.
 Definition la : zone := fun u => (-28800)%Z.
 Definition tz_example : tzdb := fun n => if String.eqb n "America/Los_Angeles" then Some la else None.
 Definition doc_example (id : string) (t : Z) : doc :=
-  [("_id", JStr id); ("connectionTime", JStr (rfc1123 true t)); ("timezone", JStr "America/Los_Angeles");
+  [("_id", JStr id); ("connectionTime", JStr (rfc1123 t)); ("timezone", JStr "America/Los_Angeles");
    ("kWhDelivered", JOpaque 0)].
 Definition pages_example : list page :=
   [ {| p_items := [doc_example "a" 63683226005]; p_next := Some "sessions/caltech?page=2" |};
